@@ -204,7 +204,8 @@ def gen_vectors(rnd, tier):
         jjj = rnd.choice([1, 2, 58, 59, 60, 61, ylen - 1, ylen,
                           rnd.randint(1, ylen)])
         stime = rnd.choice([0, 120000, 233030, 230000, 10000, 235959])
-        tstep = rnd.choice([10000, 3000, 240000, 1, 60000, 250000, 1500])
+        tstep = rnd.choice([10000, 3000, 240000, 1, 60000, 250000, 1500,
+                            1000000, 7440000, 1683015])
         n = rnd.randint(1, 4)
         sdate = y * 1000 + jjj
         if rnd.random() < 0.5:
